@@ -87,6 +87,29 @@ func runC02(c *core.Ctx) {
 				}
 			}
 		}
+		if i%7 == 3 {
+			// one file named as book and as log (a journal whose days are also recipes): each role reads the
+			// whole file, exactly as if two copies had been named
+			srv.Write(map[string]string{"journal.yaml": w.LogText, "journal2.yaml": w.LogText})
+			for _, rr := range regRenderers[:2] {
+				pre := []string{"--no-color"}
+				if w.Conf != "" {
+					pre = append(pre, "--config", "hr.conf")
+				}
+				if w.Layout != "2006/01/02" {
+					pre = append(pre, "--date-format", w.Layout)
+				}
+				same := srv.App1(append(append(append([]string{}, pre...), "-d", "journal.yaml", "-l", "journal.yaml"), rr.args...), nil)
+				twoArgs := append(append(append([]string{}, pre...), "-d", "journal2.yaml", "-l", "journal.yaml"), rr.args...)
+				two := srv.App1(twoArgs, nil)
+				c.Eval(2)
+				c.Count("runs_one_file_in_both_roles", 1)
+				if same.Exit != two.Exit || same.Out != two.Out {
+					c.Violation(rr.name+"|one-file-in-both-roles", fmt.Sprintf("-d F -l F: exit %d, %d bytes of report; with a copy of F as the book: exit %d, %d bytes", same.Exit, len(same.Out), two.Exit, len(two.Out)),
+						caseDoc{Files: map[string]string{"journal.yaml": w.LogText, "journal2.yaml": w.LogText, "hr.conf": w.Conf}, Args: twoArgs, Expected: resDoc(two), Observed: resDoc(same)})
+				}
+			}
+		}
 		for ri, rr := range regRenderers {
 			res, ok := checkReg(c, srv, w, rr, nil, w.Log, true, true)
 			if nontrivial {
